@@ -548,7 +548,10 @@ class OfxgetWorld:
         if not run.ok and run.file_after is not None and run.file_after != run.file_before:
             # a failed run may have written; the file must still be usable
             obs, err = self.observe(run.n)
-            if obs is None and "Missing URL" not in (err or ""):
+            keep = self.unspecified
+            url_known = not null(self.resolve({})[0]["url"])
+            self.unspecified = keep
+            if obs is None and url_known:      # (with no URL anywhere it may fail)
                 self.violate("C18", "L2-persist", "unreadable-after-failed-run",
                              f"run{run.n} failed ({run.exc}) and left a configuration file on which later runs fail: {err}")
 
